@@ -21,6 +21,19 @@ pub fn open_cache(path: &std::path::Path) -> StoreWriter {
     StoreWriter::open(path).expect("cache open").with_migrations(radicle::cob::cache::migrate::ignore).expect("cache migrations")
 }
 
+/// Signs with one key and claims another: the change's signature does not verify.
+struct Forged {
+    claim: radicle::crypto::PublicKey,
+    real: radicle::node::device::Device<radicle::crypto::test::signer::MockSigner>,
+}
+
+impl radicle::crypto::signature::Signer<radicle::crypto::ssh::ExtendedSignature> for Forged {
+    fn try_sign(&self, msg: &[u8]) -> Result<radicle::crypto::ssh::ExtendedSignature, radicle::crypto::signature::Error> {
+        let sig: radicle::crypto::Signature = radicle::crypto::signature::Signer::<radicle::crypto::Signature>::try_sign(&self.real, msg)?;
+        Ok(radicle::crypto::ssh::ExtendedSignature { key: self.claim, sig })
+    }
+}
+
 const TITLES: [&str; 4] = ["a title", "other title", "bad\ntitle", ""];
 const BODIES: [&str; 3] = ["body", "another body", ""];
 
@@ -153,6 +166,8 @@ impl<'a> World<'a> {
                     self.res.hit("fault.cob.identical_create");
                     self.res.trace.log("issue-recreated", format!("{} created an issue identical to its own {} in the same second: same object id", self.reps[r].name, self.oname(&id)));
                 }
+                self.note_labels(r, &id, labels.iter());
+                self.note_assignees(r, &id, assignees.iter());
                 self.res.hit("probe.cob.issue_created");
                 self.res.trace.log("issue-create", format!("{} creates {} (labels={}, assignees={})", self.reps[r].name, self.oname(&id), labels.len(), assignees.len()));
             }
@@ -177,6 +192,8 @@ impl<'a> World<'a> {
         let comments: Vec<radicle::cob::thread::CommentId> = iss.comments().map(|(c, _)| *c).collect();
         let a_comment = comments[self.ch.pick_usize(comments.len())];
         let which = if self.own == "C07" { self.ch.weighted(&[8, 2, 1, 2, 3, 3, 1, 1, 1]) } else { self.ch.weighted(&[5, 3, 2, 2, 3, 2, 2, 2, 2]) };
+        let mut noted_labels: Option<Vec<Label>> = None;
+        let mut noted_assignees: Option<Vec<Did>> = None;
         let (what, out): (&str, Result<(), String>) = match which {
             0 => ("comment", iss.comment(if self.ch.pick(4) == 0 { self.ch.choose(&BODIES).to_string() } else { self.tag(r, 'B') }, a_comment, [], &signer).map(|_| ()).map_err(|e| e.to_string())),
             1 => ("edit-title", iss.edit(if self.ch.pick(3) == 0 { self.ch.choose(&TITLES).to_string() } else { self.tag(r, 'T') }, &signer).map(|_| ()).map_err(|e| e.to_string())),
@@ -195,17 +212,31 @@ impl<'a> World<'a> {
             }
             6 => {
                 let labels: Vec<Label> = [["bug"].as_slice(), ["bug", "ui"].as_slice(), [].as_slice()][self.ch.pick_usize(3)].iter().map(|l| Label::new(*l).unwrap()).collect();
-                ("label", iss.label(labels, &signer).map(|_| ()).map_err(|e| e.to_string()))
+                let out = iss.label(labels.clone(), &signer).map(|_| ()).map_err(|e| e.to_string());
+                if out.is_ok() {
+                    noted_labels = Some(labels);
+                }
+                ("label", out)
             }
             7 => {
                 let who = self.ch.pick_usize(self.reps.len());
                 let set: Vec<Did> = if self.ch.pick(3) == 0 { vec![] } else { vec![Did::from(self.reps[who].nid)] };
-                ("assign", iss.assign(set, &signer).map(|_| ()).map_err(|e| e.to_string()))
+                let out = iss.assign(set.clone(), &signer).map(|_| ()).map_err(|e| e.to_string());
+                if out.is_ok() {
+                    noted_assignees = Some(set);
+                }
+                ("assign", out)
             }
             _ => ("react", iss.react(a_comment, Reaction::new('👍').unwrap(), self.ch.pick(2) == 0, &signer).map(|_| ()).map_err(|e| e.to_string())),
         };
         drop(iss);
         drop(issues);
+        if let Some(l) = noted_labels {
+            self.note_labels(r, &id, l.iter());
+        }
+        if let Some(a) = noted_assignees {
+            self.note_assignees(r, &id, a.iter());
+        }
         self.res.trace.log(&format!("issue-{what}{}", if out.is_ok() { "" } else { "-refused" }), format!("{} {what} on {} -> {}", self.reps[r].name, self.oname(&id), match &out { Ok(()) => "ok".to_string(), Err(e) => format!("refused ({})", crate::kit::json::normalise(e)) }));
         self.res.hit(if out.is_ok() { "probe.cob.issue_op_ok" } else { "probe.cob.issue_op_refused" });
         self.check_replica(r, what);
@@ -277,6 +308,8 @@ impl<'a> World<'a> {
         let merged_before = matches!(p.state(), patch::State::Merged { .. });
         let reviews: Vec<patch::ReviewId> = p.revisions().flat_map(|(_, rv)| rv.reviews().map(|(_, r)| r.id()).collect::<Vec<_>>()).collect();
         let which = if c08 { self.ch.weighted(&[2, 2, 1, 9, 6, 2, 1, 0, 1]) } else if self.own == "C07" { self.ch.weighted(&[8, 2, 7, 2, 2, 1, 2, 1, 4]) } else { self.ch.weighted(&[4, 3, 3, 5, 3, 2, 2, 1, 2]) };
+        let mut p_noted_labels: Option<Vec<Label>> = None;
+        let mut p_noted_assignees: Option<Vec<Did>> = None;
         let (what, out): (&str, Result<(), String>) = match which {
             0 => ("revision-comment", p.comment(rev, if self.ch.pick(4) == 0 { self.ch.choose(&BODIES).to_string() } else { self.tag(r, 'B') }, None, None, [], &signer).map(|_| ()).map_err(|e| e.to_string())),
             1 => {
@@ -308,11 +341,19 @@ impl<'a> World<'a> {
             6 => ("edit", p.edit::<_, String>(if self.ch.pick(3) == 0 { self.ch.choose(&TITLES).to_string() } else { self.tag(r, 'T') }, patch::MergeTarget::Delegates, &signer).map(|_| ()).map_err(|e| e.to_string())),
             7 => {
                 let set: BTreeSet<Did> = [Did::from(self.reps[0].nid)].into_iter().collect();
-                ("assign", p.assign(set, &signer).map(|_| ()).map_err(|e| e.to_string()))
+                let out = p.assign(set.clone(), &signer).map(|_| ()).map_err(|e| e.to_string());
+                if out.is_ok() {
+                    p_noted_assignees = Some(set.into_iter().collect());
+                }
+                ("assign", out)
             }
             _ => {
                 if reviews.is_empty() {
-                    ("label", p.label([Label::new("wip").unwrap()], &signer).map(|_| ()).map_err(|e| e.to_string()))
+                    let out = p.label([Label::new("wip").unwrap()], &signer).map(|_| ()).map_err(|e| e.to_string());
+                    if out.is_ok() {
+                        p_noted_labels = Some(vec![Label::new("wip").unwrap()]);
+                    }
+                    ("label", out)
                 } else {
                     let rv = reviews[self.ch.pick_usize(reviews.len())];
                     let out = p.redact_review(rv, &signer).map(|_| ()).map_err(|e| e.to_string());
@@ -326,6 +367,12 @@ impl<'a> World<'a> {
         let merged_after = matches!(p.state(), patch::State::Merged { .. });
         drop(p);
         drop(patches);
+        if let Some(l) = p_noted_labels {
+            self.note_labels(r, &id, l.iter());
+        }
+        if let Some(a) = p_noted_assignees {
+            self.note_assignees(r, &id, a.iter());
+        }
         if merged_before && what == "lifecycle" {
             self.res.hit("probe.c08.lifecycle_on_merged_patch");
             if !merged_after {
@@ -359,12 +406,22 @@ impl<'a> World<'a> {
         };
         let kind;
         let type_name;
+        let mut forged = false;
         let (tips, contents): (Vec<radicle::git::Oid>, Vec<Vec<u8>>) = if is_issue {
             type_name = issue::TYPENAME.clone();
             let Ok(Some(obj)) = radicle::cob::get::<issue::Issue, _>(&repo, &type_name, &id) else { return };
             let root = *obj.object.root().0;
             let missing: radicle::cob::thread::CommentId = self.commits[0]; // not a comment of this issue
-            let acts: Vec<issue::Action> = match self.ch.pick(4) {
+            let acts: Vec<issue::Action> = match self.ch.pick(5) {
+                4 => {
+                    kind = "forged-signature";
+                    forged = true;
+                    if self.ch.pick(2) == 0 {
+                        vec![issue::Action::Edit { title: self.tag(r, 'T').into() }]
+                    } else {
+                        vec![issue::Action::Lifecycle { state: issue::State::Closed { reason: issue::CloseReason::Other } }, issue::Action::Comment { body: self.tag(r, 'B'), reply_to: Some(root), embeds: vec![] }]
+                    }
+                }
                 0 => {
                     kind = "valid-edit-then-invalid-title";
                     vec![issue::Action::Edit { title: self.tag(r, 'T').into() }, issue::Action::Edit { title: "bad\ntitle".into() }]
@@ -387,7 +444,16 @@ impl<'a> World<'a> {
             type_name = patch::TYPENAME.clone();
             let Ok(Some(obj)) = radicle::cob::get::<patch::Patch, _>(&repo, &type_name, &id) else { return };
             let (rev, _) = obj.object.root();
-            let acts: Vec<patch::Action> = match self.ch.pick(3) {
+            let acts: Vec<patch::Action> = match self.ch.pick(4) {
+                3 => {
+                    kind = "forged-signature";
+                    forged = true;
+                    if self.ch.pick(2) == 0 {
+                        vec![patch::Action::Edit { title: self.tag(r, 'T').into(), target: patch::MergeTarget::Delegates }]
+                    } else {
+                        vec![patch::Action::Lifecycle { state: patch::Lifecycle::Archived }, patch::Action::RevisionComment { revision: rev, body: self.tag(r, 'B'), reply_to: None, location: None, embeds: vec![] }]
+                    }
+                }
                 0 => {
                     kind = "valid-edit-then-merge-by-non-delegate-or-bad-title";
                     vec![patch::Action::Edit { title: self.tag(r, 'T').into(), target: patch::MergeTarget::Delegates }, patch::Action::Edit { title: "bad\ntitle".into(), target: patch::MergeTarget::Delegates }]
@@ -404,10 +470,15 @@ impl<'a> World<'a> {
             (obj.history.tips().into_iter().collect(), acts.iter().map(|a| encoding::encode(a).unwrap()).collect())
         };
         let Some(contents) = NonEmpty::from_vec(contents) else { return };
+        // a forged change claims to be by a delegate (who may do everything) and is signed by the writer
+        let claim = self.reps.iter().find(|x| x.delegate && x.nid != nid).map(|x| x.nid);
+        if forged && claim.is_none() {
+            return;
+        }
+        let forger = Forged { claim: claim.unwrap_or(nid), real: signer.clone() };
         let out = catch(|| -> Result<(), String> {
-            let entry = repo
-                .store(Some(identity), vec![], &signer, radicle_cob::change::Template { type_name: type_name.clone(), tips, message: "byzantine change".to_string(), embeds: vec![], contents })
-                .map_err(|e| e.to_string())?;
+            let template = radicle_cob::change::Template { type_name: type_name.clone(), tips, message: "byzantine change".to_string(), embeds: vec![], contents };
+            let entry = if forged { repo.store(Some(identity), vec![], &forger, template) } else { repo.store(Some(identity), vec![], &signer, template) }.map_err(|e| e.to_string())?;
             repo.update(&nid, &type_name, &id, &entry.id).map_err(|e| e.to_string())?;
             use radicle::storage::SignRepository;
             repo.sign_refs(&signer).map_err(|e| e.to_string())?;
